@@ -30,7 +30,9 @@ package facts
 //               regenerates), time.Second & co, receiver fields named in the FnSpec,
 //               ! && || == != < <= > >= + - * (ints; + also on strings), len, append, make(T, 0),
 //               []byte(x) / string(x) / byte(lit) / int(x), []byte{…}, [][]byte{…}, []string{…},
-//               x[i], x[i:j], make([]T, n), x[i] = e (→ `Go.set`), and calls of the library table
+//               x[i], x[i:j], make([]T, n), x[i] = e (→ `Go.set`), copy(dst, src), fmt.Sprintf with
+//               %d / %s, for init; cond; post { … } and for cond { … } (→ `Go.forLoop` with a `fuel`
+//               parameter; the loop step / post become auxiliary definitions), and calls of the library table
 //               below or of the FnSpec's own table.
 // Control flow  `if` whose branches neither return nor index is rendered as a join
 //               (`let (a, b) := if c then … else …`) over the variables assigned in it; any other
@@ -71,6 +73,12 @@ type LibFn struct {
 	Tmpl    string
 	Lits    map[int]string
 	Partial bool
+	// AnyArgs: the arguments are neither typed nor rendered (error constructors whose message does
+	// not matter); what they would evaluate — including a panic inside them — is not modelled.
+	AnyArgs bool
+	// Check: a Lean Bool over the same %i that must hold, else the call panics (nil map entry
+	// dereferenced, …); it is emitted with the bounds tests of the statement.
+	Check string
 }
 
 // StateVar is a mutable receiver field (or other assignable path): a parameter of the Lean function
@@ -114,6 +122,13 @@ type FnSpec struct {
 	Lean    string // Lean name of the generated definition
 	Doc     string
 	Binders string            // extra Lean binders, placed first, e.g. "(cb : Cb.Callback)"
+	// SkipParams: Go parameters of a type outside the subset that Binders / Vals stand in for
+	SkipParams []string
+	// Results overrides the translator types of the Go results (e.g. "unit" for a pointer to a struct
+	// whose fields are modelled as State)
+	Results []string
+	// BinderArgs: the names bound by Binders, space separated (passed on to the auxiliary loop definitions)
+	BinderArgs string
 	Vals    map[string]Val    // expression key → Lean value (read-only receiver fields, abstracted terms)
 	Funcs   map[string]LibFn  // call key → Lean function (method calls, sibling functions)
 	State   []StateVar        // mutable fields
@@ -157,6 +172,8 @@ var bodyLib = map[string][]LibFn{
 	"bytes.Trim": {{Args: []string{"bytes", "bytes"}, Ret: []string{"bytes"}, Tmpl: "(Chan.trimSet %1 %0)"}},
 	// ASCII model of bytes.ToLower (ScrapliModel/Callbacks.lean)
 	"bytes.ToLower":  {{Args: []string{"bytes"}, Ret: []string{"bytes"}, Tmpl: "(Cb.fold %0)"}},
+	// model of strconv.Atoi for inputs short enough not to overflow (ScrapliModel/GoSem.lean)
+	"strconv.Atoi":   {{Args: []string{"bytes"}, Ret: []string{"int", "error"}, Tmpl: "(Go.atoi %0)"}},
 	"util.ByteIsAny": {{Args: []string{"byte", "bytes"}, Ret: []string{"bool"}, Tmpl: "(List.contains %1 %0)"}},
 }
 
@@ -253,6 +270,9 @@ type bodyTr struct {
 	fnResTy  string // Lean result type
 	consts   map[string]map[string]Val
 	synth    map[*ast.BadStmt]*ifNode // else-parts of a switch rewritten as an if-chain
+	hasFuel  bool                     // the function has a `for` loop with a condition: extra `fuel` parameter
+	loopN    int
+	aux      []string // auxiliary definitions (loop steps), innermost first
 }
 
 func (t *bodyTr) unsupported(kind string) string {
@@ -290,6 +310,20 @@ func (t *bodyTr) exprKey(e ast.Expr) string {
 		return t.exprKey(x.Fun) + "(" + strings.Join(args, ", ") + ")"
 	case *ast.StarExpr:
 		return "*" + t.exprKey(x.X)
+	case *ast.IndexExpr:
+		return t.exprKey(x.X) + "[" + t.exprKey(x.Index) + "]"
+	case *ast.ArrayType:
+		if x.Len == nil {
+			return "[]" + t.exprKey(x.Elt)
+		}
+	case *ast.CompositeLit:
+		els := make([]string, len(x.Elts))
+		for i, a := range x.Elts {
+			els[i] = t.exprKey(a)
+		}
+		return t.exprKey(x.Type) + "{" + strings.Join(els, ", ") + "}"
+	case *ast.KeyValueExpr:
+		return t.exprKey(x.Key) + ": " + t.exprKey(x.Value)
 	}
 	return "?"
 }
@@ -484,6 +518,8 @@ func (t *bodyTr) expr(e ast.Expr, sc bscope, want string) Val {
 				return Val{"([] : Bytes)", "bytes"}
 			case "list":
 				return Val{"([] : List Bytes)", "list"}
+			case "unit":
+				return Val{"()", "unit"} // a pointer result the FnSpec declares as not modelled
 			}
 			return Val{t.unsupported("nil"), want}
 		}
@@ -495,6 +531,19 @@ func (t *bodyTr) expr(e ast.Expr, sc bscope, want string) Val {
 		}
 		return Val{t.unsupported("ident_" + LeanIdentPlain(x.Name)), want}
 	case *ast.SelectorExpr:
+		if ix, ok := x.X.(*ast.IndexExpr); ok {
+			// field of a map entry, e.g. `recv.PrivilegeLevels[k].Name`: FnSpec.Funcs key `recv.PrivilegeLevels[_].Name`
+			if f, ok := t.spec.Funcs[t.exprKey(ix.X)+"[_]."+x.Sel.Name]; ok && len(f.Args) == 1 && len(f.Ret) == 1 {
+				k := t.expr(ix.Index, sc, f.Args[0])
+				if k.Ty != f.Args[0] {
+					k.Lean = t.unsupported("map_key_type")
+				}
+				if f.Check != "" {
+					t.checks = append(t.checks, t.guarded(strings.ReplaceAll(f.Check, "%0", k.Lean)))
+				}
+				return Val{strings.ReplaceAll(f.Tmpl, "%0", k.Lean), f.Ret[0]}
+			}
+		}
 		if id, ok := x.X.(*ast.Ident); ok {
 			if _, _, local := sc.lookup(id.Name); !local {
 				if id.Name == "time" {
@@ -685,6 +734,13 @@ func (t *bodyTr) libFns(key string) []LibFn {
 // applyLib renders a table call; ok=false when no entry fits.
 func (t *bodyTr) applyLib(key string, args []ast.Expr, sc bscope, allowPartial bool) (Val, []string, bool) {
 	for _, f := range t.libFns(key) {
+		if f.AnyArgs {
+			ty := "unit"
+			if len(f.Ret) == 1 {
+				ty = f.Ret[0]
+			}
+			return Val{f.Tmpl, ty}, f.Ret, true
+		}
 		if len(f.Args) != len(args) || (f.Partial && !allowPartial) {
 			continue
 		}
@@ -819,6 +875,53 @@ func (t *bodyTr) call(x *ast.CallExpr, sc bscope, want string) Val {
 			return Val{t.unsupported("call_result_count"), want}
 		}
 		return v
+	}
+	// fmt.Sprintf with %d (int → decimal digits) and %s (string / []byte) verbs
+	if key == "fmt.Sprintf" && len(x.Args) >= 1 {
+		format, ok := t.literalString(x.Args[0])
+		if !ok {
+			return Val{t.unsupported("format"), "bytes"}
+		}
+		var parts []string
+		arg := 1
+		for len(format) > 0 {
+			i := strings.IndexByte(format, '%')
+			if i < 0 {
+				parts = append(parts, "("+LeanBytes(format)+" : Bytes)")
+				break
+			}
+			if i > 0 {
+				parts = append(parts, "("+LeanBytes(format[:i])+" : Bytes)")
+			}
+			if i+1 >= len(format) || arg >= len(x.Args) {
+				return Val{t.unsupported("format"), "bytes"}
+			}
+			switch format[i+1] {
+			case 'd':
+				v := t.expr(x.Args[arg], sc, "int")
+				if v.Ty != "int" {
+					v.Lean = t.unsupported("format_argument")
+				}
+				parts = append(parts, "(Go.fmtInt "+v.Lean+")")
+			case 's':
+				v := t.expr(x.Args[arg], sc, "bytes")
+				if v.Ty != "bytes" {
+					v.Lean = t.unsupported("format_argument")
+				}
+				parts = append(parts, v.Lean)
+			default:
+				return Val{t.unsupported("format_verb"), "bytes"}
+			}
+			arg++
+			format = format[i+2:]
+		}
+		if arg != len(x.Args) {
+			return Val{t.unsupported("format_arguments"), "bytes"}
+		}
+		if len(parts) == 0 {
+			return Val{"([] : Bytes)", "bytes"}
+		}
+		return Val{"(" + strings.Join(parts, " ++ ") + ")", "bytes"}
 	}
 	// fmt.Errorf("%w: …", util.ErrX): only the wrapped sentinel is kept
 	if key == "fmt.Errorf" {
@@ -1021,6 +1124,9 @@ func (t *bodyTr) assigned(nodes []ast.Node, sc bscope) []string {
 				if ef, ok := t.spec.Effects[t.exprKey(x.Fun)]; ok {
 					add(ef.State)
 				}
+				if id, ok := x.Fun.(*ast.Ident); ok && id.Name == "copy" && len(x.Args) == 2 {
+					target(x.Args[0])
+				}
 			}
 			return true
 		})
@@ -1201,6 +1307,18 @@ func (t *bodyTr) seq(stmts []ast.Stmt, sc bscope, ctx bctx, ind string) string {
 				return t.flush(ctx, ind) + fmt.Sprintf("%slet %s := %s ++ [%s]\n", ind, ef.State, ef.State, a.Lean) + rest(sc, ind)
 			}
 		}
+		if c, ok := x.X.(*ast.CallExpr); ok && len(c.Args) == 2 {
+			if id, ok := c.Fun.(*ast.Ident); ok && id.Name == "copy" {
+				if _, _, shadowed := sc.lookup("copy"); !shadowed {
+					ln, ty := t.lhs(c.Args[0], sc)
+					src := t.expr(c.Args[1], sc, ty)
+					if (ty != "bytes" && ty != "list") || src.Ty != ty {
+						return bad("copy")
+					}
+					return t.flush(ctx, ind) + fmt.Sprintf("%slet %s := (Go.copy %s %s)\n", ind, ln, ln, src.Lean) + rest(sc, ind)
+				}
+			}
+		}
 		return bad("expression_statement")
 	case *ast.AssignStmt:
 		return t.assign(x, sc, ctx, ind, rest)
@@ -1224,6 +1342,8 @@ func (t *bodyTr) seq(stmts []ast.Stmt, sc bscope, ctx bctx, ind string) string {
 		return t.ifNode(is, sc, ctx, ind, rest)
 	case *ast.RangeStmt:
 		return t.rangeStmt(x, sc, ctx, ind, rest)
+	case *ast.ForStmt:
+		return t.forStmt(x, sc, ctx, ind, rest)
 	case *ast.BadStmt:
 		if n, ok := t.synth[x]; ok {
 			return t.ifNode(n, sc, ctx, ind, rest)
@@ -1576,6 +1696,146 @@ func (t *bodyTr) switchToIf(x *ast.SwitchStmt, sc bscope) (*ifNode, bool) {
 }
 
 
+// varTy: translator type of a variable given by its Lean name
+func (t *bodyTr) varTy(lean string, sc bscope) string {
+	for _, s := range t.spec.State {
+		if s.Lean == lean {
+			return s.Ty
+		}
+	}
+	for e := sc.env; e != nil; e = e.parent {
+		if leanLocal(e.name) == lean {
+			return e.ty
+		}
+	}
+	return ""
+}
+
+// forStmt: `for init; cond; post { body }` and `for cond { body }` → `Go.forLoop step post fuel s`.
+// The step (condition test + body) and the post statement become auxiliary top-level definitions
+// `<fn>_loop<N>_step` / `_post` over the loop state (the variables the loop assigns); everything
+// else in scope is passed as parameters. `fuel` is a parameter of the generated function: running
+// out of it yields `none`, so `generated_<fn>_eq` must show that the fuel it assumes suffices.
+func (t *bodyTr) forStmt(x *ast.ForStmt, sc bscope, ctx bctx, ind string, rest func(bscope, string) string) string {
+	bad := func(kind string) string {
+		return ind + "let _ := " + t.unsupported(kind) + "\n" + rest(sc, ind)
+	}
+	if x.Cond == nil {
+		return bad("for_without_condition")
+	}
+	if x.Init != nil {
+		// the init variable lives in its own scope around the loop
+		as, ok := x.Init.(*ast.AssignStmt)
+		if !ok || as.Tok != token.DEFINE {
+			return bad("for_init")
+		}
+		y := *x
+		y.Init = nil
+		inner := ctx
+		inner.fall = func(isc bscope, ind string) string {
+			return t.forStmt(&y, isc, ctx, ind, func(_ bscope, ind string) string { return rest(sc, ind) })
+		}
+		return t.seq([]ast.Stmt{x.Init}, sc.push(), inner, ind)
+	}
+	t.loopN++
+	name := fmt.Sprintf("%s_loop%d", t.spec.Lean, t.loopN)
+	nodes := []ast.Node{x.Body}
+	if x.Post != nil {
+		nodes = append(nodes, x.Post)
+	}
+	vars := t.assigned(nodes, sc)
+	inVars := map[string]bool{}
+	var sigma []string
+	for _, v := range vars {
+		inVars[v] = true
+		sigma = append(sigma, leanTy(t.varTy(v, sc)))
+	}
+	sigmaTy := "Unit"
+	if len(sigma) > 0 {
+		sigmaTy = strings.Join(sigma, " × ")
+	}
+	// parameters of the auxiliary definitions: fuel, the FnSpec binders, state and locals not in the loop state
+	params := "(fuel : Nat)"
+	args := "fuel"
+	if t.spec.Binders != "" {
+		params += " " + t.spec.Binders
+		args += " " + t.spec.BinderArgs
+	}
+	for _, st := range t.spec.State {
+		if !inVars[st.Lean] {
+			params += fmt.Sprintf(" (%s : %s)", st.Lean, leanTy(st.Ty))
+			args += " " + st.Lean
+		}
+	}
+	var locals []*benv
+	seen := map[string]bool{}
+	for e := sc.env; e != nil; e = e.parent {
+		if !seen[e.name] && !inVars[leanLocal(e.name)] {
+			seen[e.name] = true
+			locals = append(locals, e)
+		}
+	}
+	for i := len(locals) - 1; i >= 0; i-- {
+		params += fmt.Sprintf(" (%s : %s)", leanLocal(locals[i].name), leanTy(locals[i].ty))
+		args += " " + leanLocal(locals[i].name)
+	}
+	lctx := bctx{
+		deferred: ctx.deferred,
+		retRaw:   func(r string) string { return ".ret " + paren(r) },
+		fall:     func(_ bscope, ind string) string { return ind + ".next " + tuple(vars) + "\n" },
+		brk:      func() string { return ".brk " + tuple(vars) },
+		cont:     func() string { return ".next " + tuple(vars) },
+	}
+	savedChecks, savedGuards := t.checks, t.guards
+	t.checks, t.guards = nil, nil
+	var d strings.Builder
+	fmt.Fprintf(&d, "/-- condition test and body of loop %d of `%s` -/\n", t.loopN, t.spec.Name)
+	fmt.Fprintf(&d, "def %s_step %s : %s → Go.Ctl (%s) (%s) := fun %s =>\n", name, params, parenTy(sigmaTy), sigmaTy, t.fnResTy, tuple(vars))
+	c := t.expr(x.Cond, sc, "bool")
+	if c.Ty != "bool" {
+		c.Lean = t.unsupported("condition")
+	}
+	d.WriteString(t.flush(lctx, "  "))
+	fmt.Fprintf(&d, "  if !%s then .brk %s else\n", c.Lean, tuple(vars))
+	body := t.seq(x.Body.List, sc.push().push(), lctx, "  ")
+	d.WriteString(body)
+	post := "id"
+	var pd strings.Builder
+	if x.Post != nil {
+		pctx := bctx{
+			retRaw: func(string) string { return t.unsupported("return_in_post") },
+			fall:   func(_ bscope, ind string) string { return ind + tuple(vars) + "\n" },
+		}
+		fmt.Fprintf(&pd, "/-- post statement of loop %d of `%s` -/\n", t.loopN, t.spec.Name)
+		fmt.Fprintf(&pd, "def %s_post %s : %s → %s := fun %s =>\n", name, params, parenTy(sigmaTy), parenTy(sigmaTy), tuple(vars))
+		if hasExit(x.Post) {
+			pd.WriteString("  " + t.unsupported("post_statement") + "\n")
+		} else {
+			pd.WriteString(t.seq([]ast.Stmt{x.Post}, sc.push().push(), pctx, "  "))
+		}
+		post = "(" + name + "_post " + args + ")"
+	}
+	t.checks, t.guards = savedChecks, savedGuards
+	if pd.Len() > 0 {
+		t.aux = append(t.aux, pd.String())
+	}
+	t.aux = append(t.aux, d.String())
+	var b strings.Builder
+	fmt.Fprintf(&b, "%smatch Go.forLoop (%s_step %s) %s fuel %s with\n", ind, name, args, post, tuple(vars))
+	fmt.Fprintf(&b, "%s| .ret loopRet => %s\n", ind, ctx.retRaw("loopRet"))
+	fmt.Fprintf(&b, "%s| .out => %s\n", ind, ctx.retRaw(t.panicVal()))
+	fmt.Fprintf(&b, "%s| .fin %s => (\n", ind, tuple(vars))
+	b.WriteString(strings.TrimRight(rest(sc, ind+"  "), "\n") + ")\n")
+	return b.String()
+}
+
+func parenTy(s string) string {
+	if strings.Contains(s, " ") {
+		return "(" + s + ")"
+	}
+	return s
+}
+
 func (t *bodyTr) rangeStmt(x *ast.RangeStmt, sc bscope, ctx bctx, ind string, rest func(bscope, string) string) string {
 	bad := func(kind string) string {
 		return ind + "let _ := " + t.unsupported(kind) + "\n" + rest(sc, ind)
@@ -1686,10 +1946,13 @@ func GenBody(spec *FnSpec) string {
 	if spec.Recv != "" {
 		where = spec.Dir + ": (*" + spec.Recv + ")." + spec.Name
 	}
-	fmt.Fprintf(&b, "/-- `%s` as the source reads now. %s -/\n", where, spec.Doc)
+	doc := func(extra string) string {
+		return fmt.Sprintf("/-- `%s` as the source reads now. %s%s -/\n", where, spec.Doc, extra)
+	}
+	b.WriteString("@@DOC@@")
 	if fd == nil {
 		fmt.Fprintf(&b, "def %s : Unit := unsupported_function_not_found\n", spec.Lean)
-		return b.String()
+		return strings.Replace(b.String(), "@@DOC@@", doc(""), 1)
 	}
 	t := &bodyTr{spec: spec, imports: map[string]string{}, reserved: map[string]bool{}, synth: map[*ast.BadStmt]*ifNode{}}
 	for _, im := range file.Imports {
@@ -1727,6 +1990,9 @@ func GenBody(spec *FnSpec) string {
 	// may it panic?
 	ast.Inspect(fd.Body, func(m ast.Node) bool {
 		switch x := m.(type) {
+		case *ast.ForStmt:
+			t.mayPanic = true
+			t.hasFuel = true
 		case *ast.IndexExpr, *ast.SliceExpr:
 			t.mayPanic = true
 		case *ast.CallExpr:
@@ -1741,8 +2007,12 @@ func GenBody(spec *FnSpec) string {
 		}
 		return true
 	})
-	sc := bscope{}
+	sc := bscope{depth: 1} // parameters and named results live in the scope of the function body
 	var binders []string
+	if t.hasFuel {
+		binders = append(binders, "(fuel : Nat)")
+		t.reserved["fuel"] = true
+	}
 	if spec.Binders != "" {
 		binders = append(binders, spec.Binders)
 	}
@@ -1750,8 +2020,19 @@ func GenBody(spec *FnSpec) string {
 		binders = append(binders, fmt.Sprintf("(%s : %s)", s.Lean, leanTy(s.Ty)))
 	}
 	sigBad := ""
+	skip := map[string]bool{}
+	for _, n := range spec.SkipParams {
+		skip[n] = true
+	}
 	for _, f := range fd.Type.Params.List {
 		ty := goTypeOf(f.Type)
+		allSkipped := len(f.Names) > 0
+		for _, nm := range f.Names {
+			allSkipped = allSkipped && skip[nm.Name]
+		}
+		if allSkipped {
+			continue
+		}
 		if _, variadic := f.Type.(*ast.Ellipsis); variadic || ty == "" {
 			sigBad = t.unsupported("parameter_type")
 			continue
@@ -1763,9 +2044,18 @@ func GenBody(spec *FnSpec) string {
 		}
 	}
 	var resLean []string
+	named := ""
 	if fd.Type.Results != nil {
+		ri := 0
 		for _, f := range fd.Type.Results.List {
 			ty := goTypeOf(f.Type)
+			if ri < len(spec.Results) && spec.Results[ri] != "" {
+				ty = spec.Results[ri]
+			}
+			ri += len(f.Names)
+			if len(f.Names) == 0 {
+				ri++
+			}
 			if ty == "" {
 				sigBad = t.unsupported("result_type")
 			}
@@ -1779,6 +2069,17 @@ func GenBody(spec *FnSpec) string {
 			for i := 0; i < k; i++ {
 				t.resTys = append(t.resTys, ty)
 				resLean = append(resLean, leanTy(ty))
+			}
+			// named results start as zero values
+			for _, nm := range f.Names {
+				zero := map[string]string{"int": "(0 : Int)", "bool": "false", "bytes": "([] : Bytes)",
+					"list": "([] : List Bytes)", "error": "(none : Go.Error)"}[ty]
+				if zero == "" || nm.Name == "_" {
+					continue
+				}
+				var ln string
+				sc, ln = t.declare(nm.Name, ty, sc)
+				named += fmt.Sprintf("  let %s : %s := %s\n", ln, leanTy(ty), zero)
 			}
 		}
 	}
@@ -1807,8 +2108,15 @@ func GenBody(spec *FnSpec) string {
 			return ind + t.unsupported("missing_return") + "\n"
 		},
 	}
-	b.WriteString(t.seq(fd.Body.List, sc.push(), ctx, "  "))
-	return b.String()
+	b.WriteString(named)
+	b.WriteString(t.seq(fd.Body.List, sc, ctx, "  "))
+	// auxiliary loop definitions come first (innermost first)
+	extra := ""
+	if t.hasFuel {
+		extra = " `fuel` bounds the iterations of every `for` loop (`none` when it runs out)."
+	}
+	return strings.Join(t.aux, "\n") + map[bool]string{true: "\n", false: ""}[len(t.aux) > 0] +
+		strings.Replace(b.String(), "@@DOC@@", doc(extra), 1)
 }
 
 // GenBodies renders one generated file.
